@@ -26,6 +26,7 @@ type verifChanPC struct {
 	reads      int
 	gen        int
 	expired    bool
+	written    []verifWrite
 }
 
 func (c *verifChanPC) ReadFrom(p []byte) (int, net.Addr, error) {
@@ -34,6 +35,9 @@ func (c *verifChanPC) ReadFrom(p []byte) (int, net.Addr, error) {
 		c.mu.Lock()
 		c.reads++
 		c.mu.Unlock()
+		if r.err != nil {
+			return 0, nil, r.err // a transient read error
+		}
 		return copy(p, r.data), r.addr, nil
 	case <-c.closedCh:
 		return 0, nil, net.ErrClosed
@@ -58,7 +62,19 @@ func (c *verifChanPC) Expire() {
 	}
 	c.mu.Unlock()
 }
-func (c *verifChanPC) WriteTo(p []byte, addr net.Addr) (int, error) { return len(p), nil }
+func (c *verifChanPC) WriteTo(p []byte, addr net.Addr) (int, error) {
+	c.mu.Lock()
+	c.written = append(c.written, verifWrite{append([]byte{}, p...), addr})
+	c.mu.Unlock()
+	return len(p), nil
+}
+
+// Written returns the datagrams sent through the socket so far
+func (c *verifChanPC) Written() []verifWrite {
+	c.mu.Lock()
+	defer c.mu.Unlock()
+	return append([]verifWrite{}, c.written...)
+}
 func (c *verifChanPC) Close() error {
 	if c.onClose != nil {
 		c.onClose()
@@ -103,7 +119,14 @@ var (
 	verifPCMu        sync.Mutex
 )
 
+// VerifListenPacketHook runs when a packet listener is about to be bound (a point in the middle
+// of starting a configuration at which other things can happen)
+var VerifListenPacketHook func(address string)
+
 func verifListenSharedPacket(address string) (net.PacketConn, error) {
+	if VerifListenPacketHook != nil {
+		VerifListenPacketHook(address)
+	}
 	verifPCMu.Lock()
 	defer verifPCMu.Unlock()
 	if pc, ok := verifBoundPC[address]; ok && pc.closed == 0 {
@@ -894,4 +917,197 @@ func VH_C12_acquire_vs_last_close_packet() {
 		verifAssert("C12.acquire-vs-close-packet.nothing-running", verifBlockedIn(verifReadLoop) == 0)
 	}
 	verifReach("C12.acquire-vs-close-packet.done", true)
+}
+
+// C12: a closed handle never takes a connection, even when one is waiting to be handed out at
+// that very moment; the connection goes to the handle that is open
+func VH_C12_closed_handle_never_accepts() {
+	for rep := 0; rep < verifRepeat(40); rep++ {
+		ml := NewMultiStreamListener("127.0.0.1:0", nil)
+		h1, err1 := ml.Acquire()
+		h2, err2 := ml.Acquire()
+		verifAssert("C12.closed-handle.acquire", err1 == nil && err2 == nil)
+		verifAssert("C12.closed-handle.close-ok", h1.Close() == nil)
+		id := verifDialTCP(h2.Addr())
+		verifAssert("C12.closed-handle.dial", id >= 0)
+		verifQuiesce() // the connection is now on offer to the handles
+		for i := 0; i < 3; i++ {
+			c, err := h1.AcceptStream()
+			verifAssert("C12.closed-handle.later-accept-fails-the-same-way", c == nil && err == net.ErrClosed)
+			// (a stopped configuration's serve loop that looks again gets nothing: C10)
+			verifAssert("C10.closed-handle.stopped-generation-takes-no-new-connection", c == nil && err != nil)
+			if c != nil {
+				c.Close()
+			}
+		}
+		r := verifAcceptAsync(h2)
+		verifQuiesce()
+		verifAssert("C12.closed-handle.delivered-to-the-open-handle", len(r) == 1)
+		if len(r) == 1 {
+			a := <-r
+			verifAssert("C12.closed-handle.delivered-intact", a.err == nil && a.conn != nil)
+			if a.conn != nil {
+				a.conn.Close()
+			}
+		}
+		h2.Close()
+		verifQuiesce()
+	}
+	verifReach("C12.closed-handle.done", true)
+}
+
+// C12: a transient read error on the shared socket (reported to one reader) does not stop
+// delivery: the next datagram still reaches a handle that keeps reading
+func VH_C12_packet_transient_error() {
+	delete(verifBoundPC, "127.0.0.1:9306")
+	ml := NewMultiPacketListener("127.0.0.1:9306", nil)
+	h1, err1 := ml.Acquire()
+	h2, err2 := ml.Acquire()
+	verifAssert("C12.transient.acquire", err1 == nil && err2 == nil)
+	pc := verifBoundPC["127.0.0.1:9306"]
+	r1 := verifReadAsync(h1)
+	pc.in <- verifRead{err: verifTimeoutErr{}} // e.g. a read deadline that passed
+	verifQuiesce()
+	verifAssert("C12.transient.error-reported-to-a-reader", len(r1) == 1)
+	r2 := verifReadAsync(h2)
+	from := &net.UDPAddr{IP: net.IPv4(203, 0, 113, 5), Port: 4000}
+	payload := verifBytes("dgram", 3)
+	verifInject(pc, payload, from)
+	verifQuiesce()
+	verifAssert("C12.transient.next-datagram-delivered", len(r2) == 1)
+	if len(r2) == 1 {
+		p := <-r2
+		verifAssert("C12.transient.delivered-intact", p.err == nil && p.n == 3 && verifBytesEq(p.data[:3], payload))
+	}
+	h1.Close()
+	h2.Close()
+	verifQuiesce()
+	verifAssert("C12.transient.nothing-running", verifBlockedIn(verifReadLoop) == 0)
+	verifReach("C12.transient.done", true)
+}
+
+// C13: the last handles of two different shared listeners (two addresses, or the stream and the
+// packet listener of one address) are closed at the same time: both calls return
+func VH_C13_concurrent_last_closes() {
+	for rep := 0; rep < verifRepeat(300); rep++ {
+		delete(verifBoundPC, "127.0.0.1:9307")
+		lm := NewListenerManager()
+		var a, b interface{ Close() error }
+		s1, err := lm.ListenStream("127.0.0.1:9307")
+		verifAssert("C13.two-closes.listen-a", err == nil)
+		a = s1
+		if verifFlag("second-is-packet-on-same-address") {
+			p, err := lm.ListenPacket("127.0.0.1:9307")
+			verifAssert("C13.two-closes.listen-b", err == nil)
+			b = p
+		} else {
+			s2, err := lm.ListenStream("127.0.0.1:9308")
+			verifAssert("C13.two-closes.listen-b", err == nil)
+			b = s2
+		}
+		done := make(chan int, 2)
+		verifSched(1)
+		go func() { a.Close(); done <- 1 }()
+		go func() { b.Close(); done <- 2 }()
+		verifQuiesce()
+		verifSched(0)
+		verifAssert("C13.two-closes.all-calls-return", len(done) == 2)
+		if len(done) != 2 {
+			return
+		}
+		// the manager is usable afterwards
+		s3, err := lm.ListenStream("127.0.0.1:9307")
+		verifAssert("C13.two-closes.usable-afterwards", err == nil)
+		if err == nil {
+			s3.Close()
+		}
+		verifQuiesce()
+	}
+	verifReach("C13.two-closes.done", true)
+}
+
+// C13: many addresses listened on and then released one after the other (a configuration with
+// many ports being stopped): every call returns
+func VH_C13_many_addresses() {
+	lm := NewListenerManager()
+	const n = 70
+	var hs []interface{ Close() error }
+	for i := 0; i < n; i++ {
+		addr := "127.0.0.1:" + verifItoa(9400+i)
+		delete(verifBoundPC, addr)
+		if i%2 == 0 {
+			h, err := lm.ListenStream(addr)
+			verifAssert("C13.many.listen", err == nil)
+			hs = append(hs, h)
+		} else {
+			h, err := lm.ListenPacket(addr)
+			verifAssert("C13.many.listen", err == nil)
+			hs = append(hs, h)
+		}
+	}
+	closed := make(chan int, n)
+	go func() {
+		for i, h := range hs {
+			h.Close()
+			closed <- i
+		}
+	}()
+	verifQuiesce()
+	verifAssert("C13.many.all-calls-return", len(closed) == n)
+	verifReach("C13.many.done", true)
+}
+
+func verifItoa(n int) string {
+	if n == 0 {
+		return "0"
+	}
+	var b []byte
+	for n > 0 {
+		b = append([]byte{byte('0' + n%10)}, b...)
+		n /= 10
+	}
+	return string(b)
+}
+
+// C12 / C11: datagrams that arrive back to back while no handle is reading (the handlers are busy)
+// are each delivered once, intact, when the handles read again — also after the address has been
+// acquired a second time (a reload that keeps it)
+func VH_C12_packet_burst_unread() {
+	delete(verifBoundPC, "127.0.0.1:9309")
+	ml := NewMultiPacketListener("127.0.0.1:9309", nil)
+	h1, err1 := ml.Acquire()
+	h2, err2 := ml.Acquire() // the next generation's handle
+	verifAssert("C12.unread-burst.acquire", err1 == nil && err2 == nil)
+	pc := verifBoundPC["127.0.0.1:9309"]
+	const n = 3
+	from := &net.UDPAddr{IP: net.IPv4(203, 0, 113, 5), Port: 4000}
+	go verifInjectAll(pc, n, from)
+	verifQuiesce() // as many datagrams as the listener takes without a reader have been taken
+	seen := make([]int, n+1)
+	hs := []net.PacketConn{h1, h2}
+	which := verifChoice("first-reader", 2)
+	for i := 0; i < n; i++ {
+		r := verifReadAsync(hs[(which+i)%2])
+		verifQuiesce()
+		verifAssert("C12.unread-burst.delivered", len(r) == 1)
+		if len(r) != 1 {
+			break
+		}
+		p := <-r
+		ok := p.err == nil && p.n == 2 && p.data[0] == p.data[1] && p.data[0] >= 1 && int(p.data[0]) <= n
+		verifAssert("C12.unread-burst.intact", ok)
+		verifAssert("C11.unread-burst.handled-by-exactly-one-generation", ok)
+		if ok {
+			seen[p.data[0]]++
+		}
+	}
+	for i := 1; i <= n; i++ {
+		verifAssert("C12.unread-burst.exactly-once", seen[i] == 1)
+		verifAssert("C11.unread-burst.each-datagram-handled-exactly-once", seen[i] == 1)
+	}
+	h1.Close()
+	h2.Close()
+	verifQuiesce()
+	verifAssert("C12.unread-burst.nothing-running", verifBlockedIn(verifReadLoop) == 0 && verifBlockedIn("verifInjectAll") == 0)
+	verifReach("C12.unread-burst.done", true)
 }
